@@ -1,4 +1,4 @@
-(* C09 - statement lists of the small methods of /repo that model/C09_Masked.v and model/C09_Ops.v transcribe, as they
+(* C09 - statement lists of the small methods of /repo that model/C09_Masked.v, C09_Ops.v and C09_TfNorm.v transcribe, as they
    were when the model was written (normalised by Python's ast.unparse; produced by `translate_c09.py src`).
    proofs/C09_GenTie.v compares them with what the translator regenerates from the source on every run. Definitions only. *)
 From Coq Require Import String List.
@@ -37,7 +37,26 @@ else:
     ("zero_filled", ["return tf.where(tf.cast(self.mask, tf.bool), self.tensor, tf.zeros_like(self.tensor))"]);
     ("matmul", ["tensor = tf.matmul(self.tensor, matrix)"; "mask = tf.broadcast_to(tf.reduce_all(tf.cast(self.mask, tf.bool), axis=-1, keepdims=True), tf.shape(tensor))"; "return MaskedTensor(tensor=tensor, mask=mask)"]);
     ("transpose", ["tensor = tf.transpose(self.tensor, perm=perm)"; "mask = tf.transpose(self.mask, perm=perm)"; "return MaskedTensor(tensor=tensor, mask=mask)"]);
-    ("gather", ["tensor = tf.gather(self.tensor, indexes)"; "mask = tf.gather(self.mask, indexes)"; "return MaskedTensor(tensor=tensor, mask=mask)"]) ].
+    ("gather", ["tensor = tf.gather(self.tensor, indexes)"; "mask = tf.gather(self.mask, indexes)"; "return MaskedTensor(tensor=tensor, mask=mask)"]);
+    ("__getitem__", ["if isinstance(key, list):
+    key = tf.constant(key, dtype=tf.int32)
+    tensor = tf.gather(self.tensor, key)
+    mask = tf.gather(self.mask, key)
+else:
+    tensor = self.tensor[key]
+    mask = self.mask[key]"; "return MaskedTensor(tensor=tensor, mask=mask)"]);
+    ("__add__", ["return self.arithmetic('__add__', other)"]);
+    ("__sub__", ["return self.arithmetic('__sub__', other)"]);
+    ("__mul__", ["return self.arithmetic('__mul__', other)"]);
+    ("__truediv__", ["return self.arithmetic('__truediv__', other)"]);
+    ("__rtruediv__", ["return self.arithmetic('__rtruediv__', other)"]);
+    ("__pow__", ["return self.arithmetic('__pow__', power)"]);
+    ("square", ["tensor = tf.math.square(self.tensor)"; "return MaskedTensor(tensor=tensor, mask=self.mask)"]);
+    ("sqrt", ["tensor = tf.math.sqrt(self.tensor)"; "return MaskedTensor(tensor=tensor, mask=self.mask)"]);
+    ("fix_nan", ["self.tensor = tf.where(tf.math.is_finite(self.tensor), self.tensor, tf.zeros_like(self.tensor))"; "return self"]);
+    ("mean", ["mt_sum = tf.math.reduce_sum(self.zero_filled(), axis=axis, keepdims=keepdims)"; "mt_count = tf.math.reduce_sum(tf.cast(self.mask, mt_sum.dtype), axis=axis, keepdims=keepdims)"; "tensor = tf.math.divide(mt_sum, mt_count)"; "mask = tf.cast(mt_count, tf.bool)"; "mt = MaskedTensor(tensor=tensor, mask=mask)"; "return mt.fix_nan()"]);
+    ("variance", ["means = self.mean(axis=axis, keepdims=True)"; "diff = self - means"; "squared_deviations = diff.square()"; "return squared_deviations.mean(axis=axis)"]);
+    ("std", ["variance = self.variance(axis=axis)"; "return variance.sqrt()"]) ].
 
 (* torch/pose_body.py: class TorchPoseBody *)
 Definition torch_pose_body_TorchPoseBody : list (string * list string) :=
@@ -50,7 +69,8 @@ Definition torch_pose_body_TorchPoseBody : list (string * list string) :=
 Definition tensorflow_pose_body_TensorflowPoseBody : list (string * list string) :=
   [ ("zero_filled", ["copy = self.copy()"; "copy.data = self.data.zero_filled()"; "return copy"]);
     ("select_frames", ["data = self.data.gather(frame_indexes)"; "confidence = tf.gather(self.confidence, frame_indexes)"; "return self.__class__(fps=self.fps, data=data, confidence=confidence)"]);
-    ("matmul", ["matrix = tf.convert_to_tensor(matrix, dtype=self.data.dtype)"; "data = self.data.matmul(matrix)"; "return self.__class__(fps=self.fps, data=data, confidence=self.confidence)"]) ].
+    ("matmul", ["matrix = tf.convert_to_tensor(matrix, dtype=self.data.dtype)"; "data = self.data.matmul(matrix)"; "return self.__class__(fps=self.fps, data=data, confidence=self.confidence)"]);
+    ("points_perspective", ["return self.data.transpose(perm=POINTS_DIMS)"]) ].
 
 (* numpy/pose_body.py: class NumPyPoseBody *)
 Definition numpy_pose_body_NumPyPoseBody : list (string * list string) :=
@@ -84,3 +104,7 @@ Definition torch_representation_point_line_distance_PointLineDistanceRepresentat
 (* torch/representation/points.py: class PointsRepresentation *)
 Definition torch_representation_points_PointsRepresentation : list (string * list string) :=
   [ ("forward", ["p1s = p1s.zero_filled()"; "p1s = p1s.transpose(1, 3)"; "p1s = p1s.transpose(2, 3)"; "shape = p1s.shape"; "return p1s.reshape((-1, shape[2], shape[3]))"]) ].
+
+(* utils/fast_math.py: module-level functions *)
+Definition utils_fast_math : list (string * list string) :=
+  [ ("distance_batch", ["squared = (p1s - p2s) ** 2"; "summed = squared.sum(axis=-1)"; "return summed ** 0.5"]) ].
